@@ -55,7 +55,7 @@ def run_grid_case(c, seed=3):
     seg3 = {"steps": c["ext"], "policy": c["pol"], "policy_seed": seed + 2}  # restart of the finished run
     if c.get("W2"):
         seg2["workers"] = seg3["workers"] = c["W2"]
-    h = simdrv.run_history(spec, [seg1, seg2, seg3], {"C17": 1}, keep=True)
+    h = simdrv.run_history(spec, [seg1, seg2, seg3], {"C17": 1, "C05": 1}, keep=True)
     probs = []
     try:
         res = h["results"]
@@ -65,6 +65,12 @@ def run_grid_case(c, seed=3):
                 probs.append((f"C17:run-aborted:{r['exc'][1]}:{hist.frames(tb)}", f"lifetime {k}: {r['exc'][2]}"))
                 return probs, res
         r1, r2, r3 = res[0], res[1], res[2]
+        # the sampler stays in a state from which the run can go on / be restarted: after every step of every lifetime the
+        # idle slots hold paths with non-zero weight (a short extension must re-sort like any other run)
+        for k, r in enumerate(res):
+            for sig, msg in r.get("viol", []):
+                if sig.startswith("C05:"):
+                    probs.append(("C17:" + sig, f"lifetime {k}: {msg}"))
         if c["mode"] == "clean":
             check_finished(probs, r1, done1, 0, "first-run")
         else:
